@@ -67,8 +67,10 @@ class DataSetReadMapper:
                 for fastq_file in fastq_files:
                     bam_file = None if args.clean_start else find_stored_alignment(fastq_file, annotation_file, args)
                     if bam_file is None:
+                        # if an input is replaced while the reads are being aligned, the stored entry must not match the new version
+                        input_mtimes = alignment_input_mtimes(fastq_file, annotation_file, args)
                         bam_file = align_fasta(self.aligner, fastq_file, annotation_file, args, sample.prefix, sample.aux_dir)
-                        store_alignment(bam_file, fastq_file, annotation_file, args)
+                        store_alignment(bam_file, fastq_file, annotation_file, args, input_mtimes)
                     bam_files.append([bam_file])
                     if fastq_file in sample.readable_names_dict:
                         readable_names_dict[bam_file] = sample.readable_names_dict[fastq_file]
@@ -192,22 +194,30 @@ def find_stored_alignment(fastq_file, annotation, args):
     return None
 
 
-def store_alignment(bam_file, fastq_file, annotation, args):
+def alignment_input_mtimes(fastq_file, annotation, args):
+    ann_path = os.path.abspath(annotation) if annotation else ""
+    return (os.path.getmtime(os.path.abspath(args.index)), os.path.getmtime(os.path.abspath(fastq_file)),
+            os.path.getmtime(ann_path) if ann_path else "")
+
+
+def store_alignment(bam_file, fastq_file, annotation, args, input_mtimes=None):
     fastq = os.path.abspath(fastq_file)
     index = os.path.abspath(args.index)
     ann_path = os.path.abspath(annotation) if annotation else ""
 
     key = "%s_aligned_to_%s%s" % (fastq, index, "_" + ann_path if ann_path else "")
     bam_file = os.path.abspath(bam_file)
+    if input_mtimes is None:
+        input_mtimes = alignment_input_mtimes(fastq_file, annotation, args)
 
     with open(args.alignment_config_path, 'r') as f_in:
         aligned_fastq_files = json.load(f_in)
     aligned_fastq_files[key] = {
         'alignment_fpath': bam_file,
-        'index_mtime': os.path.getmtime(index),
-        'fastq_mtime': os.path.getmtime(fastq),
+        'index_mtime': input_mtimes[0],
+        'fastq_mtime': input_mtimes[1],
         'bam_mtime': os.path.getmtime(bam_file),
-        'ann_mtime': os.path.getmtime(ann_path) if ann_path else ""
+        'ann_mtime': input_mtimes[2]
     }
     save_config(args.alignment_config_path, aligned_fastq_files)
     logger.debug('New alignment saved to {}'.format(bam_file))
